@@ -168,6 +168,31 @@ func TestC03(t *testing.T) {
 		ev.NTAdd(nt)
 		ev.Class(a.Name+"/lattice", int64((256/step)*(256/step)*(256/step)))
 	}
+	// special values: exact zeros (also -0), tiny, thresholds, out-of-range, in every combination
+	sv := []float32{-1, -1e-6, float32(math.Copysign(0, -1)), 0, 1e-6, 0.0031308, 0.5, 1, 2}
+	for i := range sp.Spaces {
+		a := &sp.Spaces[i]
+		bad := map[string]bool{}
+		for _, x := range sv {
+			for _, y := range sv {
+				for _, z := range sv {
+					for _, dir := range []string{"toXYZ", "fromXYZ", "rt-rgb", "rt-xyz"} {
+						c := Case{a.Name, dir, [3]float32{x, y, z}}
+						ev.Eval(1)
+						ev.NT(ev.Hash("special", a.Name, dir, c.V))
+						if bad[dir] {
+							continue
+						}
+						if k, w := check(c); k != "" {
+							bad[dir] = true
+							ev.Violation("xyz", a.Name+"/"+k, w, c)
+						}
+					}
+				}
+			}
+		}
+	}
+	ev.Class("special-value-triples", int64(4*len(sv)*len(sv)*len(sv)*4))
 	// rapid triples in [-1,2]^3
 	ev.RapidChecks(ev.Pick(10000, 1000000))
 	ev.RapidSeed(3)
